@@ -201,8 +201,10 @@ def run(ctx):
             dirs = generate(ctx, tier)
             t1 = time.time()
             cases = Cases(dirs)
+            vlib.log("C19: %d directory records, %d lookups generated in %.0fs" % (len(dirs), len(cases), t1 - t0))
             recs = execute_dirs(ctx, dirs)
             t2 = time.time()
+            vlib.log("C19: %d lookups executed on the real code in %.0fs" % (len(recs), t2 - t1))
             if len(recs) != len(cases):
                 raise vlib.Infra("C19: %d cases but %d records" % (len(cases), len(recs)))
             for r in recs:
@@ -216,8 +218,10 @@ def run(ctx):
                 raise vlib.Infra("C19: %d runs hit the wall-clock deadline (machine overloaded?)" % len(deadline))
             vlib.judge_and_confirm(ctx, cases, recs, lambda cs: execute_dirs(ctx, list(cs)), lambda rs: judge(ctx, rs))
             t3 = time.time()
+            vlib.log("C19: judged in %.0fs" % (t3 - t2))
             validate_traces(ctx, recs)
             t4 = time.time()
+            vlib.log("C19: %d traces validated in %.0fs" % (ctx.traces, t4 - t3))
             ctx.extra["phases_s"] = {"gen": round(t1 - t0, 1), "run": round(t2 - t1, 1), "judge": round(t3 - t2, 1),
                                      "trace": round(t4 - t3, 1)}
             ctx.extra["directories"] = len(dirs)
